@@ -1,15 +1,297 @@
-//! C01 harness (stub).
+//! C01: a sketch always holds exactly the sample its parameters define.
+//!
+//! Request lines
+//!   case <n> <vec|tree> num=<n> scaled=<s> mh=<max_hash> track=<0|1> onum=<n> otrack=<0|1>
+//!   add <h> <a> | set <h> <a> | rm <h> | rmmany <h,h,..> | clear | merge
+//!   o.add / o.set / o.rm / o.rmmany / o.clear / o.merge   (the same on the second sketch `o`;
+//!   `merge` merges `o` into the main sketch, `o.merge` the main sketch into `o`)
+//! Response to every op: the canonical observation of the sketch the op acted on,
+//!   `mins=<list> abunds=<list|none> size=<n> sum=<n> empty=<0|1>`.
+use sourmash::encodings::HashFunctions;
+use sourmash::signature::SigsTrait;
+use sourmash::sketch::minhash::{max_hash_for_scaled, KmerMinHash, KmerMinHashBTree};
 use verif_harness::*;
 
-fn gen(_a: &Args) {
-    let mut o = Out::new();
-    o.case("stub");
+enum Sk {
+    V(KmerMinHash),
+    T(KmerMinHashBTree),
 }
 
-fn step(_: &mut (), ws: &[&str]) -> String {
-    match ws[0] {
-        "case" => "ok".into(),
-        _ => "bad-op".into(),
+impl Sk {
+    fn new(tree: bool, scaled: u64, num: u32, track: bool) -> Sk {
+        if tree {
+            Sk::T(KmerMinHashBTree::new(scaled, 21, HashFunctions::Murmur64Dna, 42, track, num))
+        } else {
+            Sk::V(KmerMinHash::new(scaled, 21, HashFunctions::Murmur64Dna, 42, track, num))
+        }
+    }
+    fn max_hash(&self) -> u64 {
+        match self {
+            Sk::V(m) => m.max_hash(),
+            Sk::T(m) => m.max_hash(),
+        }
+    }
+    fn obs(&self) -> String {
+        let (mins, abunds, size, sum, empty) = match self {
+            Sk::V(m) => (m.mins(), m.abunds(), m.size(), m.sum_abunds(), m.is_empty()),
+            Sk::T(m) => (m.mins(), m.abunds(), m.size(), m.sum_abunds(), m.is_empty()),
+        };
+        format!(
+            "mins={} abunds={} size={} sum={} empty={}",
+            show_nats(mins),
+            match abunds {
+                Some(a) => show_nats(a),
+                None => "none".into(),
+            },
+            size,
+            sum,
+            empty as u8
+        )
+    }
+    fn add(&mut self, h: u64, a: u64) {
+        match self {
+            Sk::V(m) => m.add_hash_with_abundance(h, a),
+            Sk::T(m) => m.add_hash_with_abundance(h, a),
+        }
+    }
+    fn set(&mut self, h: u64, a: u64) -> bool {
+        match self {
+            Sk::V(m) => {
+                m.set_hash_with_abundance(h, a);
+                true
+            }
+            Sk::T(_) => false,
+        }
+    }
+    fn rm(&mut self, h: u64) {
+        match self {
+            Sk::V(m) => m.remove_hash(h),
+            Sk::T(m) => m.remove_hash(h),
+        }
+    }
+    fn rmmany(&mut self, hs: Vec<u64>) -> Result<(), sourmash::Error> {
+        match self {
+            Sk::V(m) => m.remove_many(hs),
+            Sk::T(m) => m.remove_many(hs),
+        }
+    }
+    fn clear(&mut self) {
+        match self {
+            Sk::V(m) => m.clear(),
+            Sk::T(m) => m.clear(),
+        }
+    }
+    fn merge(&mut self, o: &Sk) -> Result<(), sourmash::Error> {
+        match (self, o) {
+            (Sk::V(m), Sk::V(o)) => m.merge(o),
+            (Sk::T(m), Sk::T(o)) => m.merge(o),
+            _ => unreachable!(),
+        }
+    }
+}
+
+struct St {
+    main: Option<Sk>,
+    other: Option<Sk>,
+}
+
+fn kv<'a>(ws: &'a [&str], key: &str) -> &'a str {
+    for w in ws {
+        if let Some(v) = w.strip_prefix(key) {
+            if let Some(v) = v.strip_prefix('=') {
+                return v;
+            }
+        }
+    }
+    panic!("missing {}", key)
+}
+
+fn err_name(e: &sourmash::Error) -> String {
+    let d = format!("{:?}", e);
+    let n: String = d.chars().take_while(|c| c.is_alphanumeric()).collect();
+    format!("err {}", n)
+}
+
+fn step(st: &mut St, ws: &[&str]) -> String {
+    if ws[0] == "case" {
+        let tree = ws[2] == "tree";
+        let scaled: u64 = kv(ws, "scaled").parse().unwrap();
+        let mh: u64 = kv(ws, "mh").parse().unwrap();
+        let num: u32 = kv(ws, "num").parse().unwrap();
+        let onum: u32 = kv(ws, "onum").parse().unwrap();
+        let track = kv(ws, "track") == "1";
+        let otrack = kv(ws, "otrack") == "1";
+        let main = Sk::new(tree, scaled, num, track);
+        if main.max_hash() != mh {
+            st.main = None;
+            st.other = None;
+            return format!("err max_hash {}", main.max_hash());
+        }
+        st.main = Some(main);
+        st.other = Some(Sk::new(tree, scaled, onum, otrack));
+        return "ok".into();
+    }
+    let (on_other, op) = match ws[0].strip_prefix("o.") {
+        Some(op) => (true, op),
+        None => (false, ws[0]),
+    };
+    let (mut tgt, mut src) = (st.main.take().unwrap(), st.other.take().unwrap());
+    if on_other {
+        std::mem::swap(&mut tgt, &mut src);
+    }
+    let n = |i: usize| -> u64 { ws[i].parse().unwrap() };
+    let r: Result<(), String> = match op {
+        "add" => {
+            tgt.add(n(1), n(2));
+            Ok(())
+        }
+        "set" => {
+            if tgt.set(n(1), n(2)) {
+                Ok(())
+            } else {
+                Err("bad-op".into())
+            }
+        }
+        "rm" => {
+            tgt.rm(n(1));
+            Ok(())
+        }
+        "rmmany" => tgt.rmmany(parse_nats(ws[1])).map_err(|e| err_name(&e)),
+        "clear" => {
+            tgt.clear();
+            Ok(())
+        }
+        "merge" => tgt.merge(&src).map_err(|e| err_name(&e)),
+        _ => Err("bad-op".into()),
+    };
+    let out = match r {
+        Ok(()) => tgt.obs(),
+        Err(e) => e,
+    };
+    if on_other {
+        std::mem::swap(&mut tgt, &mut src);
+    }
+    st.main = Some(tgt);
+    st.other = Some(src);
+    out
+}
+
+fn gen(a: &Args) {
+    let mut r = Rng::new(a.seed);
+    let mut o = Out::new();
+    let ncases = if a.cases > 0 {
+        a.cases
+    } else if a.tier == "thorough" {
+        200_000
+    } else {
+        4_000
+    };
+    let scaleds: [u64; 6] = [1, 2, 3, 100, 1000, 1u64 << 63];
+    for _ in 0..ncases {
+        let tree = r.chance(1, 2);
+        let is_scaled = r.chance(3, 5);
+        let (scaled, num, onum) = if is_scaled {
+            (*r.pick(&scaleds), 0u64, 0u64)
+        } else {
+            let n = r.range(1, 8);
+            let on = if r.chance(3, 4) { n } else { r.range(1, 8) };
+            (0, n, on)
+        };
+        let mh = max_hash_for_scaled(scaled);
+        let track = r.chance(1, 2);
+        let otrack = if r.chance(7, 10) { track } else { !track };
+        o.case(&format!(
+            "{} num={} scaled={} mh={} track={} onum={} otrack={}",
+            if tree { "tree" } else { "vec" },
+            num,
+            scaled,
+            mh,
+            track as u8,
+            onum,
+            otrack as u8
+        ));
+        // 8 pooled values: forces duplicates, removals of present keys, merges with overlap
+        let mut pool = [0u64; 8];
+        for p in pool.iter_mut() {
+            *p = if is_scaled {
+                if mh < 16 {
+                    r.range(0, mh + 2)
+                } else if r.chance(3, 4) {
+                    r.below(mh)
+                } else {
+                    mh.saturating_add(r.bits(20))
+                }
+            } else if r.chance(1, 3) {
+                r.range(0, 20)
+            } else {
+                r.bits(64)
+            };
+        }
+        let boundary = [
+            0u64,
+            1,
+            mh.wrapping_sub(1),
+            mh,
+            mh.wrapping_add(1),
+            u64::MAX,
+            u64::MAX - 1,
+            2,
+        ];
+        let nops = r.range(1, 40);
+        for _ in 0..nops {
+            let hash = |r: &mut Rng| -> u64 {
+                match r.below(20) {
+                    0..=6 => *r.pick(&boundary),
+                    7..=16 => *r.pick(&pool),
+                    _ => r.next(),
+                }
+            };
+            let abund = |r: &mut Rng| -> u64 {
+                match r.below(10) {
+                    0..=4 => 1,
+                    5..=7 => r.range(0, 3),
+                    8 => 0,
+                    _ => r.bits(30),
+                }
+            };
+            let pfx = |on_o: bool| if on_o { "o." } else { "" };
+            let k = r.below(100);
+            match k {
+                0..=39 => {
+                    let (h, ab) = (hash(&mut r), abund(&mut r));
+                    o.op(&format!("add {} {}", h, ab));
+                }
+                40..=47 => {
+                    let on_o = r.chance(1, 4);
+                    let (h, ab) = (hash(&mut r), abund(&mut r));
+                    if tree {
+                        o.op(&format!("{}add {} {}", pfx(on_o), h, ab));
+                    } else {
+                        o.op(&format!("{}set {} {}", pfx(on_o), h, ab));
+                    }
+                }
+                48..=59 => {
+                    let on_o = r.chance(1, 6);
+                    o.op(&format!("{}rm {}", pfx(on_o), hash(&mut r)));
+                }
+                60..=64 => {
+                    let on_o = r.chance(1, 6);
+                    let n = r.range(0, 4);
+                    let hs: Vec<u64> = (0..n).map(|_| hash(&mut r)).collect();
+                    o.op(&format!("{}rmmany {}", pfx(on_o), show_nats(hs)));
+                }
+                65..=67 => {
+                    let on_o = r.chance(1, 4);
+                    o.op(&format!("{}clear", pfx(on_o)));
+                }
+                68..=77 => o.op("merge"),
+                78..=80 => o.op("o.merge"),
+                _ => {
+                    let (h, ab) = (hash(&mut r), abund(&mut r));
+                    o.op(&format!("o.add {} {}", h, ab));
+                }
+            }
+        }
     }
 }
 
@@ -17,7 +299,13 @@ fn main() {
     let a = args();
     match a.mode.as_str() {
         "gen" => gen(&a),
-        "exec" => exec_loop(|| (), step),
+        "exec" => exec_loop(
+            || St {
+                main: None,
+                other: None,
+            },
+            step,
+        ),
         _ => panic!("mode"),
     }
 }
